@@ -45,6 +45,7 @@ def run(ctx):
     RT2.check_no_cutoff(ctx, 'R12.5', only={'_group', 'group_period', 'group_as', 'group_aliased', 'group_identifier'})
     RT2.check_recursion_coverage(ctx, 'R12.5', only={'group_period', 'group_as', 'group_aliased', 'group_identifier', 'group_order', 'group_typecasts', 'group_arrays'})
     check_followers(ctx, V)
+    check_name_after_period(ctx, V)
     from .. import rules_base as RB
     from .. import rules_lexer as RL_
     ctx.rule('R12.S', 'Lexer.get_tokens interpreted on short texts agrees token by token with the rule-table model the other rules use', floor=1)
@@ -77,6 +78,38 @@ def check_followers(ctx, V):
         ctx.ob('R12.7', f'follower:{w}', kwloc, f'{w} after a reference is lexed as one Keyword token', not bad and not broken and bool(types),
                (f'lexed as {bad}: ' if bad else f'not one token in {broken[:2]}: ') +
                f'`from t {w.lower()} ...` gives the reference t the alias {w} (get_alias() / get_name() return {w!r}, has_alias() is True)')
+
+
+def check_name_after_period(ctx, V):
+    """`qualifier.name`: the word behind the period is a name whatever it spells.  For every word of the keyword dictionaries and of
+    the dedicated keyword rules, `t.<word>` must lex as Name, Punctuation, Name -- a later rule cannot help when an earlier keyword
+    rule takes the word first (table order)."""
+    T = V.T
+    ctx.rule('R12.8', 'a word directly behind a period is lexed as a name, whatever keyword it spells', floor=1)
+    words = set()
+    for _, d in T.kw:
+        words |= {w for w in d if ' ' not in w and w.isidentifier()}
+    for r in T.lex:
+        for w in (V.rule_words.get(r.index) or ()):
+            if ' ' not in w and w.isidentifier():
+                words.add(w)
+    NAME = TT(('Name',))
+    bad = {}
+    for w in sorted(words):
+        for sp in (w, w.lower()):
+            text = 't.' + sp + ' x'
+            r, end, tt = T.lex_one(text, 2)
+            if not (end == 2 + len(sp) and isinstance(tt, TT) and NAME.contains(tt)):
+                bad.setdefault(r.pattern if r is not None else '?', []).append(sp)
+    kwloc = T.kwmod.relpath
+    if not bad:
+        ctx.ob('R12.8', 'after-period', kwloc, f'`t.<word>` is Name . Name for all {len(words)} words of the keyword tables, in upper and lower case', True)
+    from .. import rx as RX
+    for pat, sps in sorted(bad.items()):
+        line = next((x.line for x in T.lex if x.pattern == pat), 0)
+        ctx.ob('R12.8', f'after-period:rule={RX.canon_pattern(pat)}', f'{kwloc}:{line}', 'no keyword rule takes a word that directly follows a period', False,
+               f'rule {pat!r} comes first for {sorted(set(x.upper() for x in sps))[:8]}: `select t.{sps[0]} from t` yields the Identifier `t.` and a stray keyword, '
+               f'get_real_name() of the reference is None')
 
 
 def check_remove_quotes(ctx):
